@@ -26,7 +26,7 @@ PROPS = {
     "C02": {
         "harness": "vh-tree",
         "level": "proof",
-        "level_text": "PARTIAL. Kernel-checked theorems, for every token list and every grammar behaviour: bump strictly advances the token index and cannot fail before the end; every iteration of the parse_chunk loop strictly advances (progress guard) and the loop ends at the end of input within #tokens iterations; all model functions are total; and over the call graph of the parse path RE-EXTRACTED FROM THE RUST SOURCE on every run: every recursion (cycle) passes through a function that takes one of the MAX_SYNTAX_LEVELS=200 levels, hence a stack with at most 200 level-taking frames has a bounded number of frames. The token-layer model is compared with the real event streams every run. Stack depth and wall-clock time are runtime facts outside the model: they are checked by the implementation-side oracle only (child process, parse on a 2 MiB thread stack under a budget of 3 s + 40 us/byte, a case is over budget only if three attempts in a row are) on 68 nesting ladders at depths 1..20 000 (thorough 100 000) around and far beyond the syntax-level limit, large token soup and long flat files.",
+        "level_text": "PARTIAL. Kernel-checked theorems, for every token list and every grammar behaviour: bump strictly advances the token index and cannot fail before the end; every iteration of the parse_chunk loop strictly advances (progress guard) and the loop ends at the end of input within #tokens iterations; all model functions are total; and over the call graph of the parse path RE-EXTRACTED FROM THE RUST SOURCE on every run: every recursion (cycle) passes through a function that takes one of the MAX_SYNTAX_LEVELS=200 levels, hence a stack with at most 200 level-taking frames has a bounded number of frames; a failed enter_level leaves the counter unchanged and guards are balanced, and that every function touching the counter has exactly the modelled shape (enter_level(p)?; first, one leave_level, nothing in between can leave the function) is re-extracted from the source and bridged by decide. The token-layer model is compared with the real event streams every run. Stack depth and wall-clock time are runtime facts outside the model: they are checked by the implementation-side oracle only (child process, parse on a 2 MiB thread stack under a budget of 3 s + 40 us/byte, a case is over budget only if three attempts in a row are) on 78 nesting ladders at depths 1..20 000 (thorough 100 000) around and far beyond the syntax-level limit - including nesting constructs interleaved with doc comments carrying nested types at every level, and every kind of statement placed exactly at block levels limit-2..limit+2 -, large token soup, structured prefix/doc families and long flat files. Every parse of a generated input (ties and oracles of C01, C02, C04) runs in that child first, so a hang, abort or memory blow-up is a concrete failure with a replay and the run continues (bounded by a failure allowance).",
         "level_note": "Partial: no theorem about real stack frames or time. The recursion limit (MAX_SYNTAX_LEVELS = 200, fix: commit) is exercised by the ladders (first depth reporting 'too many syntax levels' is recorded per ladder). Open finding: iterative left-nested chains of >= ~16000 links give trees whose recursive drop/re-hash inside rowan overflows 2 MiB or takes quadratic time.",
         "trusted_base": TREE_TB + ["OS process/thread semantics for the crash oracle (thread stack size 2 MiB, SIGABRT/SIGSEGV on overflow)"],
         "assumptions": ["the grammar moves the token index only through LuaParser::bump (token_index is private to lua_parser.rs)", "set_current_token_kind never changes the class (trivia / non-trivia) of a token"],
